@@ -48,6 +48,17 @@ def _normalize_title_quotes(title: str) -> str:
     return f'"{escaped}"'
 
 
+def _ref_def_target(dest: str, title: str | None) -> tuple[str, str | None]:
+    """
+    The destination and title that a link reference definition stands for, in the form
+    link elements carry them (Marko keeps definitions as written: `<...>`, title delimiters).
+    """
+    if dest[:1] == "<" and dest[-1:] == ">":
+        dest = dest[1:-1]
+    dest = inline.Literal.strip_backslash(dest)
+    return dest, (inline.Literal.strip_backslash(title[1:-1]) if title else None)
+
+
 def _render_link_dest(dest: str) -> str:
     """
     A link destination that contains whitespace or unbalanced parentheses is only
@@ -655,14 +666,28 @@ class MarkdownNormalizer(Renderer):
     def render_inline_html(self, element: inline.InlineHTML) -> str:
         return cast(str, element.children)
 
+    def _reference_label(self, element: inline.Link | inline.Image) -> str | None:
+        """
+        The label of the definition that a reference-style link or image points to,
+        or None for the inline form (which has a destination of its own in the source).
+        """
+        if getattr(element, "dest_span", None) is not None:
+            return None
+        assert self.root_node
+        target = (element.dest, element.title)
+        return next(
+            (
+                label
+                for label, (dest, title) in self.root_node.link_ref_defs.items()
+                if _ref_def_target(dest, title) == target
+            ),
+            None,
+        )
+
     def render_link(self, element: inline.Link) -> str:
         link_text = self.render_children(element)
         link_title = _normalize_title_quotes(element.title) if element.title else None
-        assert self.root_node
-        label = next(
-            (k for k, v in self.root_node.link_ref_defs.items() if v == (element.dest, link_title)),
-            None,
-        )
+        label = self._reference_label(element)
         if label is not None:
             if label == link_text:
                 return f"[{label}]"
@@ -679,11 +704,15 @@ class MarkdownNormalizer(Renderer):
         return f"<{element.dest}>"
 
     def render_image(self, element: inline.Image) -> str:
+        alt_text = self.render_children(element)
+        label = self._reference_label(element)
+        if label is not None:
+            if label == alt_text:
+                return f"![{label}]"
+            return f"![{alt_text}][{label}]"
         template = "![{}]({}{})"
         title = f" {_normalize_title_quotes(element.title)}" if element.title else ""
-        return template.format(
-            self.render_children(element), _render_link_dest(element.dest), title
-        )
+        return template.format(alt_text, _render_link_dest(element.dest), title)
 
     def render_literal(self, element: inline.Literal) -> str:
         """
